@@ -264,6 +264,10 @@ func layeredWorld(src *choice.Src) *World {
 // schema positions), is unreadable, or is matched twice.
 func manyFilesWorld(src *choice.Src) *World {
 	n := src.Range("mf.n", 5, 24)
+	if src.Chance("mf.huge", 1, 3) {
+		n = src.Range("mf.nhuge", 25, 72)
+	}
+	brokenNum := choice.Pick(src, "mf.brokenshare", []int{0, 1, 2})
 	w := &World{OutKind: "file", Out: "gen.go", Class: "many-files"}
 	broken := []string{
 		"parameters: 5\nservices: [1, 2]\ndecorators: {a: b}\nmeta: 7\n",
@@ -277,7 +281,7 @@ func manyFilesWorld(src *choice.Src) *World {
 	for i := 0; i < n; i++ {
 		name := fmt.Sprintf("many/%02d_part.yaml", i)
 		c := fmt.Sprintf(good, i, i)
-		if src.Chance("mf.broken", 2, 3) {
+		if src.Chance("mf.broken", brokenNum, 3) {
 			c = choice.Pick(src, "mf.kind", broken)
 		}
 		w.Files = append(w.Files, InFile{Path: name, Content: c})
